@@ -131,7 +131,9 @@ ROUNDS = [("seeded2", "6.3 Second round of seeded changes",
           ("seeded3", "6.4 Third round of seeded changes",
            "A third set of fresh sub-agents, told the summaries of both earlier changes for their property, again had "
            "to choose a different mechanism, function and kind of trigger (error paths, later sessions, interactions "
-           "between two interfaces were suggested).")]
+           "between two interfaces were suggested)."),
+          ("seeded4", "6.4b Fourth round of seeded changes",
+           "A fourth set of fresh sub-agents, told the summaries of the three earlier changes for their property.")]
 for rdir, title, intro in ROUNDS:
     p2 = os.path.join(V, rdir, "results.json")
     if not os.path.exists(p2):
